@@ -429,8 +429,8 @@ def run(tier):
     v.distinct += len(sa) + len(sb) + len(sim) + len(ros) + len(leg)
 
     # ---- the sequences on the real backends
-    jobs = [ex.submit(run_.pair, "seqB", gb, sb, "ascii", 60000 if thorough else 2000),
-            ex.submit(run_.pair, "seqA", ga, sa)]
+    jobs = [ex.submit(run_.pair, "seqB", gb, sb, "ascii", 20000 if thorough else 2000),
+            ex.submit(run_.pair, "seqA", ga, sa, "ascii", 20000)]
     f_sim = ex.submit(run_.pair, "sim", s, sim)
     for vc in ("unicode", "edge"):
         jobs.append(ex.submit(run_.pair, f"sim-{vc}", s, sim if thorough else sim[:100], vc))
